@@ -205,6 +205,10 @@ func (g *Gen) randBatch(name string, cfg batchCfg) *BatchSpec {
 					}
 				}
 			}
+			if g.chance(0.2) {
+				// the term-vector option stated independently of what the analysis delivered
+				f.TV = g.pick([]string{"0", "1"})
+			}
 			flds = append(flds, f)
 		}
 		if cfg.syn && g.chance(0.5) {
@@ -274,7 +278,11 @@ func (g *Gen) randBatch(name string, cfg batchCfg) *BatchSpec {
 			if ln == 0 {
 				ln = 1
 			}
-			d.Fields = append(d.Fields, FieldSpec{Kind: "comp", Name: "_all", Typ: 'c', Len: ln, Toks: toks, DV: g.chance(0.2)})
+			cf := FieldSpec{Kind: "comp", Name: "_all", Typ: 'c', Len: ln, Toks: toks, DV: g.chance(0.2)}
+			if g.chance(0.2) {
+				cf.TV = "0" // e.g. a composite field created with the index-only option
+			}
+			d.Fields = append(d.Fields, cf)
 		}
 		b.Docs = append(b.Docs, d)
 	}
@@ -472,6 +480,11 @@ func (g *Gen) genC01(n int) error {
 			cfg.minDocs, cfg.maxDocs = 0, 0
 			g.st("emptybatch")
 		}
+		if (g.tier == "thorough" && i%150 == 77) || (g.tier == "quick" && i%160 == 77) {
+			g.bigBuildCase([]int{1025, 1026, 1024, 1025}[(i/150)%4])
+			g.st("case")
+			continue
+		}
 		b := g.randBatch(g.fresh("b"), cfg)
 		g.emitBatch(b)
 		s := g.fresh("s")
@@ -481,6 +494,60 @@ func (g *Gen) genC01(n int) error {
 		g.st("case")
 	}
 	return nil
+}
+
+// bigBuildCase: more than 1024 documents and terms whose cardinalities sit on both sides of, and
+// exactly at, the 1024 boundary of the cardinality-dependent chunk modes, next to each other in
+// term order.
+func (g *Gen) bigBuildCase(mode int) {
+	g.curMode = mode
+	g.emit("cfg chunkmode=%d", mode)
+	nd := 1100 + g.r.Intn(200)
+	b := &BatchSpec{Name: g.fresh("b")}
+	in := func(term string, d int) bool {
+		switch term {
+		case "a":
+			return true
+		case "b":
+			return d >= nd-1024 // exactly 1024 documents
+		case "c":
+			return d < 1025
+		case "d":
+			return d < 1023
+		case "e":
+			return d%2 == 0
+		}
+		return d >= nd-1025 // "f": 1025 documents at the end
+	}
+	for d := 0; d < nd; d++ {
+		id := []byte(fmt.Sprintf("%s-%d", b.Name, d))
+		doc := DocSpec{ID: id, Plain: true}
+		doc.Fields = append(doc.Fields, FieldSpec{Kind: "fld", Name: "_id", Typ: 't', Stored: true, Len: 1, Val: id, Toks: []TokSpec{{Term: id, Freq: 1}}})
+		var toks []TokSpec
+		for _, term := range []string{"a", "b", "c", "d", "e", "f"} {
+			if in(term, d) {
+				t := TokSpec{Term: []byte(term), Freq: 1 + (d+int(term[0]))%3}
+				if term == "a" && d%5 != 0 || term == "b" && d%7 == 0 {
+					t.Locs = []LocSpec{{Pos: 1 + d%7, Start: d, End: d + 3}}
+				}
+				toks = append(toks, t)
+			}
+		}
+		doc.Fields = append(doc.Fields, FieldSpec{Kind: "fld", Name: "body", Typ: 't', Len: 2 + d%4, DV: d%2 == 0, Toks: toks})
+		b.Docs = append(b.Docs, doc)
+	}
+	g.emitBatch(b)
+	s := g.fresh("s")
+	g.emit("build %s %s", s, b.Name)
+	g.newBuilt(s, b)
+	g.emit("q count %s", s)
+	tail := "N,N,N,N,N,N,N,N,N,N,N,N"
+	for _, term := range []string{"a", "b", "c", "d", "e", "f", "nope"} {
+		g.emit("q post %s body %s ex=nil fl=111 ops=N,N,N,A500,N,N,A1015,%s,A%d,N,N,N", s, hx([]byte(term)), tail, nd-3)
+		g.emit("q post %s body %s ex=nil fl=000 ops=%s", s, hx([]byte(term)), g.nexts(nd+1))
+	}
+	g.emit("q dict %s body aut=all lo=* hi=* probe=-", s)
+	g.st("bigbuild")
 }
 
 func (g *Gen) genC02(n int) error {
@@ -498,6 +565,32 @@ func (g *Gen) genC02(n int) error {
 		}
 		b := g.randBatch(g.fresh("b"), cfg)
 		g.emitBatch(b)
+		if g.chance(0.12) {
+			// the application's field validator rejects the batch; the repaired retry comes next
+			rej := ""
+			for _, d := range b.Docs {
+				for _, f := range d.Fields {
+					if f.Kind == "fld" && f.Name != "_id" {
+						rej = f.Name
+					}
+				}
+			}
+			if rej != "" {
+				g.emit("validator reject:%s", rej)
+				g.emit("build %s %s", g.fresh("x"), b.Name)
+				g.emit("validator none")
+				g.st("rejected-then-retry")
+				if g.chance(0.7) && len(b.Docs) > 1 {
+					// the retry holds the same documents in another order
+					b2 := &BatchSpec{Name: g.fresh("b")}
+					for k := len(b.Docs) - 1; k >= 0; k-- {
+						b2.Docs = append(b2.Docs, b.Docs[k])
+					}
+					g.emitBatch(b2)
+					b = b2
+				}
+			}
+		}
 		s := g.fresh("s")
 		g.emit("build %s %s", s, b.Name)
 		g.newBuilt(s, b)
@@ -603,6 +696,11 @@ func (g *Gen) genC04(n int) error {
 	}
 	for i := 0; i < n; i++ {
 		g.emit("note case %d", i)
+		if i == 9 && !g.vectors {
+			g.bigFileCase()
+			g.st("case")
+			continue
+		}
 		g.setMode()
 		cfg := g.defaultCfg()
 		cfg.syn = g.chance(0.4)
@@ -820,7 +918,13 @@ func (g *Gen) bigMergeCase() {
 			if d%2 == 0 {
 				toks = append(toks, TokSpec{Term: []byte("even"), Freq: 1})
 			}
+			toks = append(toks, TokSpec{Term: []byte("zzz"), Freq: 1})
 			doc.Fields = append(doc.Fields, FieldSpec{Kind: "fld", Name: "body", Typ: 't', Len: 2 + d%4, DV: k == 0, Toks: toks})
+			if d%30 == k {
+				// the empty term opens the next field's dictionary
+				doc.Fields = append(doc.Fields, FieldSpec{Kind: "fld", Name: "tag", Typ: 't', Len: 1, DV: true,
+					Toks: []TokSpec{{Term: []byte{}, Freq: 2, Locs: []LocSpec{{Pos: 1, Start: d, End: d}, {Pos: 2, Start: d + 1, End: d + 1}}}}})
+			}
 			b.Docs = append(b.Docs, doc)
 		}
 		g.emitBatch(b)
@@ -858,6 +962,9 @@ func (g *Gen) bigMergeCase() {
 		g.emit("q post %s body %s ex=%d,%d fl=111 ops=A%d,N,N,A%d,N", m, hx([]byte(term)), total/2, total/2+1, total/2-1, total-3)
 	}
 	g.emit("q dict %s body aut=all lo=* hi=* probe=-", m)
+	g.emit("q dict %s tag aut=all lo=* hi=* probe=.", m)
+	g.emit("q post %s tag . ex=nil fl=111 ops=%s", m, g.nexts(total/30+4))
+	g.emit("q post %s body %s ex=nil fl=100 ops=N,A%d,N,N,A%d,N,N", m, hx([]byte("zzz")), total/2, total-2)
 	g.emit("close %s", m)
 	g.st("bigmerge")
 }
@@ -1016,6 +1123,9 @@ func (g *Gen) genC07(n int) error {
 		g.emit("close %s", o)
 		g.emit("close %s", mm)
 	}
+	// several chunks of posting details: exclusions that move a term's live count across 1024
+	g.emit("note big case")
+	g.bigFrozenCase([]int{1026, 1025}[g.r.Intn(2)])
 	// random larger instances with prealloc reuse histories and ReplaceActual
 	nr := g.tierN(1500, 30000)
 	for i := 0; i < nr; i++ {
@@ -1323,4 +1433,52 @@ func (g *Gen) genEnc(n int) error {
 		}
 	}
 	return nil
+}
+
+// bigFileCase: a file of more than 2 MiB (incompressible stored values), so that the index
+// sections - dictionaries, doc values, their offsets - lie beyond offsets that need a 4-byte varint.
+func (g *Gen) bigFileCase() {
+	g.curMode = 1026
+	g.emit("cfg chunkmode=1026")
+	nd := 270 + g.r.Intn(20)
+	b := &BatchSpec{Name: g.fresh("b")}
+	for d := 0; d < nd; d++ {
+		id := []byte(fmt.Sprintf("%s-%d", b.Name, d))
+		doc := DocSpec{ID: id, Plain: true}
+		doc.Fields = append(doc.Fields, FieldSpec{Kind: "fld", Name: "_id", Typ: 't', Stored: true, Len: 1, Val: id, Toks: []TokSpec{{Term: id, Freq: 1}}})
+		seed := g.r.Intn(1 << 30)
+		doc.Fields = append(doc.Fields, FieldSpec{Kind: "fld", Name: "blob", Typ: 't', Stored: true, Len: 0,
+			Rnd: fmt.Sprintf("%d:%d", seed, 8192), Val: rndBytes(seed, 8192)})
+		toks := []TokSpec{{Term: []byte(fmt.Sprintf("t%d", d%7)), Freq: 1}, {Term: []byte("all"), Freq: 2, Locs: []LocSpec{{Pos: 1, Start: 0, End: 3}, {Pos: 2, Start: 4, End: 7}}}}
+		doc.Fields = append(doc.Fields, FieldSpec{Kind: "fld", Name: "body", Typ: 't', Len: 3, DV: true, Toks: toks})
+		b.Docs = append(b.Docs, doc)
+	}
+	g.emitBatch(b)
+	s := g.fresh("s")
+	g.emit("build %s %s", s, b.Name)
+	g.newBuilt(s, b)
+	f := g.fresh("f")
+	g.emit("persist %s %s", s, f)
+	g.emit("footer %s mode=1026 docs=%d", f, nd)
+	o := g.fresh("o")
+	g.emit("open %s %s", o, f)
+	g.alias(o, s)
+	for _, seg := range []string{s, o} {
+		g.emit("q count %s", seg)
+		g.emit("q fields %s", seg)
+		g.emit("q dvfields %s", seg)
+		g.emit("q dict %s body aut=all lo=* hi=* probe=-", seg)
+		g.emit("q post %s body %s ex=nil fl=111 ops=%s", seg, hx([]byte("all")), g.nexts(nd+1))
+		st := g.fresh("st")
+		for _, d := range []int{0, 1, nd / 2, nd - 1} {
+			g.emit("q dv %s %s fields=body,_id,blob doc=%d", seg, st, d)
+			g.emit("q docid %s %d", seg, d)
+		}
+		g.emit("q stored %s %d stop=*", seg, nd-1)
+		g.emit("q docnums %s ids=%s", seg, hxList([][]byte{b.Docs[0].ID, b.Docs[nd-1].ID}))
+	}
+	g.emit("close %s", o)
+	g.emit("close %s", s)
+	g.emit("rmfile %s", f)
+	g.st("bigfile")
 }
